@@ -96,6 +96,7 @@ DEFAULT_PROFILE = {
     "ensure": None,            # intrinsic name that must occur (s_ensure)
     "scalar_loopvar": 0,       # percent: a DO uses the visible local `it`
     "exit_with_print": 0,      # percent: EXIT/CYCLE preceded by a PRINT
+    "array_only_loops": 0,     # percent: loop body = array-element writes
 }
 
 
@@ -1132,6 +1133,17 @@ class Gen:
             body = ["  " + ln for ln in self.s_do()]
             self.depth -= 1
             self.features.add("perfect_nest")
+        elif self.int(1, 100) <= self.prof.get("array_only_loops", 0):
+            # a loop whose body only assigns array elements (no scalar
+            # writes): the kind of loop dependence analysis can accept
+            saved_kinds = self.prof["kinds"]
+            self.prof["kinds"] = {k: 0 for k in saved_kinds}
+            self.prof["kinds"].update({"assign_elem": 3, "dep_pair": 6})
+            try:
+                body = self.block(1, 2)
+            finally:
+                self.prof["kinds"] = saved_kinds
+            self.features.add("array_only_loop")
         else:
             body = self.block(1, 3)
         self.loop_kinds.pop()
